@@ -179,7 +179,29 @@ func (n *lazyNode) tryAry() bool {
 	return true
 }
 
+func (n *lazyNode) isNull() bool {
+	if n == nil {
+		return true
+	}
+
+	if n.which != eRaw {
+		return false
+	}
+
+	if n.raw == nil {
+		return true
+	}
+
+	return bytes.Equal(n.compact(), []byte("null"))
+}
+
 func (n *lazyNode) equal(o *lazyNode) bool {
+	// A null is a nil node or a node without raw bytes, depending on where it
+	// came from: treat all forms alike before looking inside the nodes.
+	if nNull, oNull := n.isNull(), o.isNull(); nNull || oNull {
+		return nNull && oNull
+	}
+
 	if n.which == eRaw {
 		if !n.tryDoc() && !n.tryAry() {
 			if o.which != eRaw {
@@ -210,14 +232,6 @@ func (n *lazyNode) equal(o *lazyNode) bool {
 
 			if !ok {
 				return false
-			}
-
-			if (v == nil) != (ov == nil) {
-				return false
-			}
-
-			if v == nil && ov == nil {
-				continue
 			}
 
 			if !v.equal(ov) {
